@@ -11,11 +11,12 @@ from pgverif.gen import templates as TT
 from pgverif.monitors import genoref as G
 
 TIERS = {
-    'quick': dict(shards=8, max_dnas=6, family_stride=4, random=20, dnas=4,
-                  iter_max=24, corrupt=2, max_nodes=45, timeout_s=600),
-    'thorough': dict(shards=16, max_dnas=24, family_stride=1, random=160,
-                     dnas=8, iter_max=60, corrupt=3, max_nodes=60, timeout_s=3000,
-                     case_timeout_s=300),
+    'quick': dict(shards=8, max_dnas=6, family_stride=4, random=26, dnas=4,
+                  iter_max=24, corrupt=2, max_nodes=45, history=6,
+                  family_history=3, timeout_s=600),
+    'thorough': dict(shards=16, max_dnas=24, family_stride=1, random=200,
+                     dnas=8, iter_max=60, corrupt=3, max_nodes=60, history=12,
+                     family_history=4, timeout_s=3000, case_timeout_s=300),
 }
 RULE = ('case = one template description (gen/templates.py) with a `where` '
         'filter. Part 1: the bounded family of search-space descriptions of '
@@ -26,12 +27,21 @@ RULE = ('case = one template description (gen/templates.py) with a `where` '
         'rendered random spaces (floats, custom and evolvable placeholders, '
         'names, depth <= 2), objects with placeholders bound to typed fields, '
         'tag / class filters, plain-container roots, deliberately '
-        'indistinguishable candidates. DNAs: all members of spaces with <= '
+        'indistinguishable candidates; pg.Dict / pg.List with a value spec whose '
+        'numeric bounds are boundary values (0, 0.0, -0.0, equal min/max, '
+        'noneable) holding floatv / oneof / manyof whose ranges end on, just '
+        'inside or just outside the bounds (the reference knows whether the '
+        'range fits: a misfit may be refused at binding, else a member that '
+        'decodes outside the spec is decoded first); evolvable placeholders '
+        'whose node_transform changes the value. DNAs: all members of spaces with <= '
         '`dnas` members, else `dnas` reference-sampled members. Every DNA: '
         'decode twice, compare with the reference decoder, field rules, '
         'mutate one result, encode, materialize; every template: pg.iter, '
-        'random sampling, dynamic evaluation, non-member DNAs; the template '
-        'is snapshotted (JSON, format, own canonical form) around every call. '
+        'random sampling, dynamic evaluation, non-member DNAs, and a HISTORY of '
+        'decode / random_dna(previous_dna) / next_dna / encode / re-decode over '
+        'the members and the proposed children in which every value handed out '
+        'earlier is re-read after every call and the DNA involved is decoded '
+        'again; the template is snapshotted (JSON, format, own canonical form) around every call. '
         'Non-trivial = at least 2 members and (a conditional candidate, a '
         'multi-choice, a filter or a typed field); distinct by template text.')
 LEVEL = 'exploration'
@@ -41,7 +51,11 @@ REQUIRED_COUNTERS = ['spec_checks', 'decode_checks', 'reference_compared',
                      'mutations_applied', 'encode_checks', 'encode_inverse_checked',
                      'snapshot_checks', 'materialize_checks', 'iter_full',
                      'iter_values', 'random_sample_checks', 'dynamic_checks',
-                     'nonmember_checks', 'where_templates', 'typed_templates']
+                     'nonmember_checks', 'where_templates', 'typed_templates',
+                     'bound_spec_checks', 'binding_refusal_checks',
+                     'bound_spec_templates', 'evolve_step_templates',
+                     'history_ops', 'history_held_checks',
+                     'history_redecode_checks', 'history_children']
 ASSUMPTIONS = [
     'a DNA is valid for a template iff its decisions are a member of the space derived from the description (genoref); DNAs are built in the documented nested form, some bound to the template\'s own spec',
     'the reference decoder consumes decisions in placeholder order of the value (dict insertion order, list order, schema order of object fields; pick, its candidate, next pick); a placeholder rejected by `where` stays and its candidates are still searched',
@@ -49,6 +63,8 @@ ASSUMPTIONS = [
     'candidates are distinguishable when no two candidates of any choice of the space can stand for ==-equal values (structural over-approximation); otherwise encode and pairwise difference are not judged',
     'the per-call DNA stored on hyper values (dna property, used by __call__) is not part of the template state that must stay unchanged',
     'templates whose filter keeps no placeholder, tuples containing placeholders, NaN, negative choice indices and manyof with num_choices of 0 or 1 are not generated',
+    'a DNA proposed by random_dna / next_dna of the template\'s spec is used in a history only when it is a member of the reference space; the genome of an evolvable placeholder stands for the value whose JSON text it is; whether such calls raise is not judged',
+    'a placeholder whose range is not inside the value spec of its field may be refused when it is bound (no template, nothing to check) and a refusal of a range that fits is reported as build-raised; int constants in float fields and floatv under noneable fields are not generated',
     'non-member DNAs (unsorted / repeated picks, index == number of candidates, float outside the range, wrong number of picks) must be rejected by decode: decode/encode can only be inverse bijections on the space',
 ]
 
@@ -103,6 +119,8 @@ def dna_shape(d):
 def has_typed(T):
   if T['t'] == 'obj' and T['cls'] != 'Any2':
     return True
+  if T.get('specs') or T.get('elem'):
+    return True
   kids = [c for _, c in TT.children(T)]
   if T['t'] == 'choice':
     kids = T['cands']
@@ -130,12 +148,15 @@ class Case:
     self.bad_size = bad_size and any(
         p['t'] == 'choice' and p['k'] == 5 and TT.keep(W, p)
         for p in TT.all_placeholders(T))
+    # placeholder ranges that are not inside the value spec of their field
+    self.misfit = sorted(set(TT.misfits(T)))
     self.space = TT.to_space(T, W)
     self.size = G.size(self.space)
     self.tops = TT.top_placeholders(T, W)
     self.root_choice = any(p == () for p, _ in self.tops)
     self.dist = TT.distinguishable(T, W)
     self.where = TT.where_fn(W)
+    self.bound_spec = TT.has_bound_spec(T)
     self._dnas = {}
     self.record = {'template': TT.show(T), 'where': TT.show_where(W),
                    'entry': entry, 'plain_root': plain, 'description': T,
@@ -157,6 +178,8 @@ class Case:
       return 'plain-container-root'
     if self.bad_size:
       return 'manyof-vs-list-size'
+    if self.misfit:
+      return 'range-vs-field-spec'
     if TT.where_in_candidate(self.T, self.W):
       return 'where-in-candidate'
     if self.W['by'] != 'all':
@@ -389,6 +412,11 @@ def check_dna(ctx, cs, m, j):
   for fld in sorted(set(TT.broken_field_rules(c1))):
     ctx.violation('field-spec-broken', fld,
                   f'decode({dna!r}) = {pg.format(d1, compact=True)[:700]}', cs.record)
+  if cs.bound_spec:
+    c['bound_spec_checks'] += 1
+    for fld in sorted(set(TT.broken_bound_specs(exp_desc, c1))):
+      ctx.violation('field-spec-broken', fld,
+                    f'decode({dna!r}) = {pg.format(d1, compact=True)[:700]}', cs.record)
   # -- a second decode of the same DNA: equal and independent
   ok, d2 = decode(ctx, cs, dna, m)
   if ok:
@@ -761,6 +789,165 @@ def check_nonmembers(ctx, cs, members):
 
 
 # --------------------------------------------------------------------------
+# Histories: decode / random_dna(previous_dna) / next_dna / encode / re-decode.
+# --------------------------------------------------------------------------
+
+class Entry:
+  """One valid DNA of a history and everything decode handed out for it."""
+
+  def __init__(self, m, dna):
+    self.m, self.dna = m, dna
+    self.first = None          # canonical form of the first decode
+    self.held = []             # [(value, canonical form when handed out)]
+
+
+def check_history(ctx, cs, members, steps):
+  """Returns False when the template had to be rebuilt."""
+  c = ctx.counters
+  rng = ctx.rng
+  if not steps or not members or cs.plain:
+    return True
+  try:
+    spec = cs.t.dna_spec()
+  except Exception:  # pylint: disable=broad-except
+    return True
+  known = {}
+  for m in members[:3]:
+    known[m] = Entry(m, cs.dna(m))
+  last = None
+  judge_encode = cs.dist and cs.feature() not in ('where-in-candidate',)
+
+  def redecode(entry, op):
+    """decode(entry.dna); compares with its first result."""
+    ok, v = decode(ctx, cs, entry.dna, entry.m)
+    if not ok:
+      return None
+    cv = TT.canon_value(v)
+    if entry.first is None:
+      entry.first = cv
+      try:
+        exp = TT.canon_desc(TT.ref_decode(cs.T, cs.W, entry.m))
+      except TT.DecodeError:
+        c['history_genome_not_understood'] += 1
+        exp = cv
+      c['reference_compared'] += 1
+      if cv != exp:
+        ctx.violation('decode-differs', 'decode:' + cs.region(cv, exp),
+                      f'history: decode({entry.dna!r}) = '
+                      f'{pg.format(v, compact=True)[:700]}', cs.record)
+    else:
+      c['history_redecode_checks'] += 1
+      if cv != entry.first:
+        ctx.violation('decode-twice-differs', 'history:after-' + op,
+                      f'decode({entry.dna!r}) after {op} differs from its first '
+                      f'result (below: {cs.region(cv, entry.first)}): '
+                      f'{pg.format(v, compact=True)[:600]}', cs.record)
+        return None
+    entry.held = entry.held[-2:] + [(v, cv)]
+    return entry
+
+  def audit(op, involved):
+    """Everything handed out earlier is unchanged; the DNA involved in the
+    call still decodes to its first value; the template is unchanged."""
+    if not check_snapshot(ctx, cs, 'history:' + op):
+      return False
+    good = True
+    for e in known.values():
+      for v, cv in e.held:
+        c['history_held_checks'] += 1
+        now = TT.canon_value(v)
+        if now != cv:
+          ctx.violation('decoded-value-changed', 'history:' + op,
+                        f'the value handed out by decode({e.dna!r}) changed during '
+                        f'{op} (below: {cs.region(now, cv)}): now '
+                        f'{pg.format(v, compact=True)[:600]}', cs.record)
+          good = False
+    if good and involved is not None and involved.first is not None:
+      good = redecode(involved, op) is not None
+    if not good:
+      cs.make()
+    return good
+
+  for _ in range(steps):
+    r = rng.random()
+    if last is None or r < 0.3:
+      op = 'decode'
+    elif r < 0.72:
+      op = 'random_dna'
+    elif r < 0.84:
+      op = 'next_dna'
+    else:
+      op = 'encode'
+    c['history_ops'] += 1
+    c['history:' + op] += 1
+    if op == 'decode':
+      fresh = [e for e in known.values() if e.first is None]
+      entry = rng.choice(fresh) if fresh and rng.random() < 0.6 else rng.choice(
+          list(known.values()))
+      if redecode(entry, 'decode') is None:
+        cs.make()
+        return False
+      last = entry
+      if not audit('decode', None):
+        return False
+      continue
+    if op == 'encode':
+      entry = last
+      v, cv = entry.held[-1]
+      if not judge_encode or cv != entry.first:
+        c['history_encode_not_judged'] += 1
+        continue
+      try:
+        e = cs.t.encode(v)
+      except Exception as ex:  # pylint: disable=broad-except
+        if not is_lib_error(ex) and not isinstance(ex, (ValueError, TypeError, KeyError, NotImplementedError)):
+          raise
+        ctx.violation('encode-not-inverse', 'history:encode-raised',
+                      f'encode(decode({entry.dna!r})) raised:\n{tb(ex)}', cs.record)
+        cs.make()
+        return False
+      c['encode_checks'] += 1
+      if dna_shape(e) != G.tree(cs.space, entry.m):
+        ctx.violation('encode-not-inverse', 'history:encode-differs',
+                      f'encode(decode({entry.dna!r})) = {e!r}', cs.record)
+        cs.make()
+        return False
+      if not audit('encode', entry):
+        return False
+      continue
+    src = last if rng.random() < 0.6 else rng.choice(list(known.values()))
+    try:
+      if op == 'next_dna':
+        child = spec.next_dna(src.dna)
+      else:
+        how = rng.randrange(3)
+        if how == 0:
+          child = pg.random_dna(spec, rng, previous_dna=src.dna)
+        elif how == 1:
+          child = spec.random_dna(rng, previous_dna=src.dna)
+        else:
+          child = cs.t.dna_spec().random_dna(rng, previous_dna=src.dna)
+    except Exception as ex:  # pylint: disable=broad-except
+      if not is_lib_error(ex) and not isinstance(ex, (ValueError, TypeError, KeyError, NotImplementedError)):
+        raise
+      c['history_%s_raised' % op] += 1         # not this property's business
+      child = None
+    if child is not None:
+      try:
+        nums = tuple(child.to_numbers())
+      except Exception:  # pylint: disable=broad-except
+        nums = None
+      if nums is None or not G.is_member(cs.space, nums):
+        c['history_child_nonmember'] += 1        # C11's business
+      elif nums not in known and len(known) < 8:
+        known[nums] = Entry(nums, child)
+        c['history_children'] += 1
+    if not audit(op, src):
+      return False
+  return True
+
+
+# --------------------------------------------------------------------------
 # Case generation.
 # --------------------------------------------------------------------------
 
@@ -783,11 +970,17 @@ def _random_case(rng):
   r = rng.random()
   plain = bad = False
   W = TT.ALL
-  if r < 0.30:
+  if r < 0.24:
     st = TT.State(rng, tags=rng.random() < 0.5)
     bad = rng.random() < 0.1
     T = TT.typed_template(st, bad_size=bad)
     kind = 'typed'
+  elif r < 0.44:
+    T = TT.bound_template(TT.State(rng, tags=rng.random() < 0.5))
+    kind = 'bound'
+  elif r < 0.58:
+    T = TT.evolve_template(TT.State(rng, tags=rng.random() < 0.5))
+    kind = 'evolve'
   else:
     fl = rng.choice([0.0, 0.15, 0.3, 0.3])
     sp = S.random_space(rng, max_depth=rng.choice([0, 1, 1, 2]), max_elems=2,
@@ -799,7 +992,7 @@ def _random_case(rng):
     kind = 'rendered'
   if rng.random() < 0.4:
     W = TT.random_where(rng, T)
-  if not bad and T['t'] in ('dict', 'list') and rng.random() < 0.06:
+  if not bad and kind != 'bound' and T['t'] in ('dict', 'list') and rng.random() < 0.06:
     plain = True
   return T, W, plain, bad, kind
 
@@ -823,14 +1016,21 @@ def run_case(ctx, i):
   except Exception as e:  # pylint: disable=broad-except
     if not is_lib_error(e):
       raise
-    if bad and isinstance(e, (ValueError, TypeError)):
-      # A manyof whose number of choices the bound List spec can never hold
-      # may be refused when it is bound: then there is no template to decode.
-      c['bad_size_refused_at_binding'] += 1
+    if (bad or TT.misfits(T)) and isinstance(e, (ValueError, TypeError)):
+      # A placeholder whose range is not inside the value spec of its field
+      # (a manyof whose number of choices the List spec can never hold, a
+      # floatv / candidate beyond a numeric bound) may be refused when it is
+      # bound: then there is no template to decode.
+      c['binding_refusal_checks'] += 1
+      c['bad_size_refused_at_binding' if bad else 'misfit_refused_at_binding'] += 1
       return
     ctx.violation('build-raised', kind, tb(e), {'template': TT.show(T)})
     return
   c['kind:' + kind] += 1
+  if cs.bound_spec:
+    c['bound_spec_templates'] += 1
+  if any(p.get('transform') == 'step' and TT.keep(W, p) for p in TT.all_placeholders(T)):
+    c['evolve_step_templates'] += 1
   c['entry:' + entry] += 1
   if W['by'] != 'all':
     c['where_templates'] += 1
@@ -863,6 +1063,27 @@ def run_case(ctx, i):
       if len(members) >= nd:
         break
     c['sampled_dna_sets'] += 1
+  if cs.bound_spec:
+    # boundary DNAs: every float decision on an end of its range; when the
+    # reference says a range does not fit its field but binding accepted it,
+    # a member that decodes to a value outside the spec comes first
+    extra = [TT.extreme_member(T, W, rng, end) for end in ('lo', 'hi')]
+    if cs.misfit:
+      c['binding_refusal_checks'] += 1
+      c['misfit_accepted_at_binding'] += 1
+      pool = extra + list(all_members or []) + members + [
+          TT.random_member(T, W, rng) for _ in range(12)]
+      wit = None
+      for m in pool:
+        d = TT.ref_decode(T, W, m)
+        if TT.broken_bound_specs(d, TT.canon_desc(d)):
+          wit = m
+          break
+      if wit is not None:
+        extra.insert(0, wit)
+      else:
+        c['misfit_without_witness'] += 1
+    members = list(dict.fromkeys(extra + members))[:nd + 2]
   for m in members:
     if not G.is_member(cs.space, m):
       raise AssertionError(f'harness: {m!r} is not a member of {S.show(cs.space)}')
@@ -872,10 +1093,12 @@ def run_case(ctx, i):
     if not check_dna(ctx, cs, m, j):
       alive = False
       break
+  alive = (alive and check_history(
+      ctx, cs, members, ctx.params['family_history' if kind == 'family' else 'history']))
   alive = (alive and check_iter(ctx, cs, all_members) is not False
            and check_random(ctx, cs) is not False
            and check_nonmembers(ctx, cs, members))
-  if alive and W['by'] == 'all' and not bad and not any(
+  if alive and W['by'] == 'all' and not bad and not cs.misfit and not any(
       p['name'] for p in TT.all_placeholders(T)):
     check_dynamic(ctx, cs, members)         # names share decisions there: not generated
   n_members = cs.size if cs.size is not None else 2
